@@ -1141,3 +1141,12 @@ Lemma names_generated :
   [e_unknown_object; e_unknown_method; e_invalid_args; e_python_exception; e_invalid_error_name] =
   [n_unknown_object; n_unknown_method; n_invalid_args; n_python_exception; n_invalid_error_name].
 Proof. split; reflexivity. Qed.
+
+(* ------------------------------------------------------------------------------
+   calls are handled independently of the calls before them                       *)
+Lemma calls_independent ex before c beh after :
+  nth_error (handle_all ex (before ++ (c, beh) :: after)) (length before) = Some (handle ex beh c).
+Proof.
+  induction before as [|[c0 b0] before IH]; [reflexivity|].
+  cbn [app handle_all length nth_error]. exact IH.
+Qed.
